@@ -69,6 +69,7 @@ struct cfg {
   int nofetch;  /* raw observers do not fetch the remaining blocks of a multi-block notification */
   int verdicts; /* every notification offers "answer with RST" as a cost-1 alternative */
   int fault_blocks; /* block-wise follow-up requests / responses may be dropped, duplicated, reordered too */
+  int sametok;  /* both raw observers draw their tokens from the same sequence: equal token bytes on different sessions */
   int nops;
   struct op ops[MAXOPS];
   int bound;
@@ -411,7 +412,7 @@ after_deliver(void) {
 /* observers                                                                                   */
 static void
 fresh_token(int c, uint8_t tok[2]) {
-  tok[0] = (uint8_t)(0xA0 + c);
+  tok[0] = (uint8_t)(0xA0 + (C->sametok ? 0 : c));
   tok[1] = (uint8_t)(OB[c].next_tok++);
 }
 static struct oreq *
@@ -970,7 +971,7 @@ struct family {
   unsigned kinds;          /* allowed op kinds (bit mask) */
   int modes;               /* bit mask of modes; rotate != 0: one mode per sequence, rotating */
   int rotate;
-  int wrap, lc, nofetch, verdicts, fault_blocks;
+  int wrap, lc, nofetch, verdicts, fault_blocks, sametok;
   int bound;
   int need_r2;             /* only sequences that touch r2 */
   int qcanon;              /* query "x=1" is only used for a second registration next to the query-less one */
@@ -1087,11 +1088,12 @@ emit_scenario(const struct family *f, const struct op *ops, int n) {
     c->nofetch = f->nofetch;
     c->verdicts = f->verdicts;
     c->fault_blocks = f->fault_blocks;
+    c->sametok = f->sametok;
     c->bound = f->bound;
     c->nops = n;
     memcpy(c->ops, ops, sizeof *ops * (size_t)n);
-    size_t o = (size_t)snprintf(c->name, sizeof c->name, "c11:%s,m=%s,w=%d,lc=%d,nf=%d,vd=%d,fb=%d,B=%d:", f->tag, mode_names[m], c->wrap,
-                                c->lc, c->nofetch, c->verdicts, c->fault_blocks, c->bound);
+    size_t o = (size_t)snprintf(c->name, sizeof c->name, "c11:%s,m=%s,w=%d,lc=%d,nf=%d,vd=%d,fb=%d%s,B=%d:", f->tag, mode_names[m], c->wrap,
+                                c->lc, c->nofetch, c->verdicts, c->fault_blocks, c->sametok ? ",sametok" : "", c->bound);
     for (int i = 0; i < n && o + 24 < sizeof c->name; i++) {
       const struct op *p = &ops[i];
       switch (p->kind) {
@@ -1160,6 +1162,8 @@ main(int argc, char **argv) {
       {.tag = "d3", .mind = 3, .maxd = 3, .cmask = 3, .rmask = 3, .qmask = 3, .kinds = ALLK, .modes = 3, .bound = 1, .qcanon = 1},
       {.tag = "lc", .mind = 1, .maxd = 2, .cmask = 3, .rmask = 3, .qmask = 1, .kinds = ALLK, .modes = 7, .rotate = 1, .lc = 1, .bound = 1},
       {.tag = "wrap", .mind = 1, .maxd = 2, .cmask = 1, .rmask = 3, .qmask = 1, .kinds = ALLK, .modes = 3, .wrap = 1, .bound = 1},
+      /* the two observers use equal token bytes (each on its own session): an entry is identified by session AND token */
+      {.tag = "sametok", .mind = 2, .maxd = 3, .cmask = 3, .rmask = 1, .qmask = 1, .kinds = ALLK, .modes = 7, .rotate = 1, .sametok = 1, .bound = 1},
   };
   static const struct family thorough[] = {
       {.tag = "d3", .mind = 1, .maxd = 3, .cmask = 3, .rmask = 3, .qmask = 3, .kinds = ALLK, .modes = 7, .bound = 1, .qcanon = 1},
@@ -1176,6 +1180,7 @@ main(int argc, char **argv) {
       {.tag = "blk", .mind = 1, .maxd = 3, .cmask = 3, .rmask = 3, .qmask = 3, .kinds = ALLK, .modes = 7, .rotate = 1, .fault_blocks = 1,
        .bound = 1, .need_r2 = 1, .qcanon = 1},
       {.tag = "vd", .mind = 1, .maxd = 3, .cmask = 3, .rmask = 1, .qmask = 1, .kinds = ALLK, .modes = 7, .verdicts = 1, .bound = 1},
+      {.tag = "sametok", .mind = 2, .maxd = 4, .cmask = 3, .rmask = 3, .qmask = 1, .kinds = ALLK, .modes = 7, .rotate = 1, .sametok = 1, .bound = 1},
   };
   const struct family *fams = T ? thorough : quick;
   int nf = T ? (int)(sizeof thorough / sizeof thorough[0]) : (int)(sizeof quick / sizeof quick[0]);
@@ -1207,7 +1212,7 @@ main(int argc, char **argv) {
              "then drained, idled 310 s, a stranger session with max_idle_sessions=1, and 2 (7 in default mode) fault-free probe changes; "
              "non-trivial = a deviation was taken, a retransmission or a deregistration by RST / time-out occurred; distinct = distinct observation logs");
   vx_ev_str("families", famdesc);
-  vx_ev_assumption("observers register with Confirmable GETs and fresh 2-byte tokens; the registration response is recognised as the piggybacked ACK");
+  vx_ev_assumption("observers register with Confirmable GETs and fresh 2-byte tokens (distinct between the two observers except in the sametok family, where both draw from one sequence); the registration response is recognised as the piggybacked ACK");
   vx_ev_assumption("a raw observer answers every copy of a message the same way (ACK for CON, nothing for NON unless rst/sil says otherwise) "
                    "and fetches the remaining blocks of a multi-block notification once");
   vx_ev_assumption("'a confirmable notification failed' is taken from the server application's NACK callback (COAP_NACK_TOO_MANY_RETRIES); "
